@@ -18,8 +18,10 @@
 (*                     <<o, r>> (one entry per origin),                     *)
 (*            ann = ghost "renewed by the origin's ann-th announcement",    *)
 (*            old = LastUpdate lies before the last AgeAll.                 *)
-(* `net` is the bag of frames in flight [src,dst,o,seq,path,sb,rs,ann];     *)
+(* `net` is the bag of frames in flight [src,dst,o,seq,path,sb,rs,ann,d];   *)
 (* rs = set of [r, m] (route, advertised metric), sb = seen-by list.        *)
+(* Ghost d (frames and entries): the true number of hops the announcement   *)
+(* has travelled from its origin to the receiver / storing agent.           *)
 (*                                                                         *)
 (* One action = one call into the flooder / route manager:                 *)
 (*   Announce      AnnounceLocalRoutes                                     *)
@@ -56,17 +58,19 @@ CONSTANTS Agent,      \* set of agent names
           Announcers, \* agents that may announce
           MaxAnn,     \* announcements per announcer
           CntMod,     \* modulus of the route-count field
+          ListMod,    \* modulus of the count field of the path and of the seen-by list (256 in the code): a list of
+                      \* ListMod or more agents cannot be written
           MaxConn, MaxDisc, MaxExpire, MaxDup, MaxAge,  \* budgets of the environment actions
           Dev, Emit
 
 DevNames == {"DevForwardKeepsReceivedMetric", "DevReplayUsesOwnSequence", "DevNoHopCheck", "DevCount8Wrap",
-             "DevNoSeenMark", "DevForwardLooped", "DevNoPathPrepend"}
+             "DevNoSeenMark", "DevForwardLooped", "DevNoPathPrepend", "DevPathCountWrap"}
 
 ASSUME /\ Dev \subseteq DevNames /\ Announcers \subseteq Agent
        /\ \A u \in InitUps : u \subseteq Links
        /\ \A x \in Exits : x \subseteq Agent
        /\ \A l \in Links : l \subseteq Agent /\ Cardinality(l) = 2
-       /\ CntMod >= 2
+       /\ CntMod >= 2 /\ ListMod >= 2
 
 VARIABLES up,     \* connected links
           pend,   \* <<n,p>>: n has still to replay its table to the new peer p (handlePeerConnected)
@@ -144,7 +148,7 @@ IsChunking(chunks, S) ==
   /\ \A i, j \in 1..Len(chunks) : i # j => SeqToSet(chunks[i]) \cap SeqToSet(chunks[j]) = {}
 ChunkMsgs(n, q, base, chunks, an) ==
   {[src |-> n, dst |-> q, o |-> n, seq |-> base + i, path |-> <<n>>, sb |-> <<n>>,
-    rs |-> {[r |-> chunks[i][j], m |-> 0] : j \in 1..Len(chunks[i])}, ann |-> an] : i \in 1..Len(chunks)}
+    rs |-> {[r |-> chunks[i][j], m |-> 0] : j \in 1..Len(chunks[i])}, ann |-> an, d |-> 1] : i \in 1..Len(chunks)}
 
 AnnounceWith(o, chunks) ==
   /\ o \in Announcers /\ bud.ann[o] < MaxAnn
@@ -206,8 +210,13 @@ DeliverDropped(m, keep) ==
   /\ net' = Rest(m, keep)
   /\ UNCHANGED <<cfg, up, pend, gone, ctr, tbl, nann, fwd, sent, clean>>
 
+\* the count field of an agent list: a list that fits is written as it is; a longer one would be written with the
+\* count wrapped, and the receiver reads that many agents and ignores the rest
+Fits(l) == Len(l) < ListMod
+Wire(l) == IF Fits(l) THEN l ELSE SubSeq(l, 1, Len(l) % ListMod)
+
 Cands(m) == {[o |-> m.o, r |-> x.r, nh |-> m.src, m |-> x.m + 1, path |-> m.path, seq |-> m.seq,
-              ann |-> m.ann, old |-> FALSE] : x \in m.rs}
+              ann |-> m.ann, old |-> FALSE, d |-> m.d] : x \in m.rs}
 \* every table rejects a path through the storing agent; otherwise the update rule decides per key
 Store(T, m) ==
   IF m.dst \in SeqToSet(m.path) THEN T
@@ -223,8 +232,10 @@ FwdMsgs(m) ==
       tgt == Nbr(n) \ ({m.src} \cup SeqToSet(sb2))
       rs2 == IF "DevForwardKeepsReceivedMetric" \in Dev THEN m.rs ELSE {[r |-> x.r, m |-> x.m + 1] : x \in m.rs}
       path2 == IF "DevNoPathPrepend" \in Dev THEN m.path ELSE <<n>> \o m.path
-  IN {[src |-> n, dst |-> q, o |-> m.o, seq |-> m.seq, path |-> path2, sb |-> sb2, rs |-> rs2, ann |-> m.ann]
-        : q \in tgt}
+  IN \* a path or seen-by list that does not fit its count field is not sent at all (never wrapped)
+     IF (~Fits(path2) \/ ~Fits(sb2)) /\ "DevPathCountWrap" \notin Dev THEN {}
+     ELSE {[src |-> n, dst |-> q, o |-> m.o, seq |-> m.seq, path |-> Wire(path2), sb |-> Wire(sb2), rs |-> rs2,
+            ann |-> m.ann, d |-> m.d + 1] : q \in tgt}
 
 DeliverNew(m, keep) ==
   /\ Take(m, keep) /\ Decodable(m) /\ <<m.o, m.seq>> \notin seen[m.dst]
@@ -279,7 +290,7 @@ PathSrc(E) == LET i == CHOOSE i \in 1..4 : (\E e \in E : KindOf(e.r) = KindPri[i
                                             /\ \A j \in 1..(i - 1) : \A e \in E : KindOf(e.r) # KindPri[j]
                   S == {e \in E : KindOf(e.r) = KindPri[i]}
                   B == IF KindPri[i] = "p" THEN {e \in S : \A d \in S : e.m <= d.m} ELSE S
-              IN {[path |-> e.path, ann |-> e.ann] : e \in B}
+              IN {[path |-> e.path, ann |-> e.ann, d |-> e.d] : e \in B}
 \* the routes of a replayed group: every exit route entry, and of the presence entries (one per next hop) only the best
 ReplayRs(E) == {[r |-> e.r, m |-> e.m] : e \in {x \in E : x.r # "p" \/ \A d \in E : d.r = "p" => x.m <= d.m}}
 ReplayWith(n, p, own) ==
@@ -294,8 +305,10 @@ ReplayWith(n, p, own) ==
           /\ \A g \in Amb : amb[g] \in PathSrc(Ents(g))
           /\ LET ch(g) == IF g \in Amb THEN amb[g] ELSE CHOOSE e \in PathSrc(Ents(g)) : TRUE
              IN net' = BagAdd(net, ChunkMsgs(n, p, ctr[n], own, nann[n]) \cup
-                            {[src |-> n, dst |-> p, o |-> g[1], seq |-> g[2], path |-> <<n>> \o ch(g).path, sb |-> <<n>>,
-                              rs |-> ReplayRs(Ents(g)), ann |-> ch(g).ann] : g \in G})
+                            {[src |-> n, dst |-> p, o |-> g[1], seq |-> g[2], path |-> Wire(<<n>> \o ch(g).path), sb |-> <<n>>,
+                              rs |-> ReplayRs(Ents(g)), ann |-> ch(g).ann, d |-> ch(g).d + 1]
+                               \* (a group whose path would not fit the count field is not replayed)
+                               : g \in {x \in G : Fits(<<n>> \o ch(x).path) \/ "DevPathCountWrap" \in Dev}})
           /\ last' = [act |-> "Replay", n |-> n, p |-> p]
   /\ ctr' = [ctr EXCEPT ![n] = @ + Len(own)]
   /\ pend' = pend \ {<<n, p>>}
@@ -316,9 +329,9 @@ DevReplay(n, p) ==
              /\ LET ch(g) == IF g \in Amb THEN amb[g] ELSE CHOOSE e \in PathSrc(Ents(g)) : TRUE
                 IN net' = BagAdd(net,
                   {[src |-> n, dst |-> p, o |-> g, seq |-> ctr[n] + ord[g], path |-> <<n>> \o ch(g).path, sb |-> <<n>>,
-                    rs |-> {[r |-> e.r, m |-> e.m] : e \in Ents(g)}, ann |-> ch(g).ann] : g \in G \ {n}}
+                    rs |-> {[r |-> e.r, m |-> e.m] : e \in Ents(g)}, ann |-> ch(g).ann, d |-> ch(g).d + 1] : g \in G \ {n}}
                   \cup (IF n \in G THEN {[src |-> n, dst |-> p, o |-> n, seq |-> ctr[n] + ord[n], path |-> <<n>>,
-                                           sb |-> <<n>>, rs |-> {[r |-> x, m |-> 0] : x \in Locals(n)}, ann |-> nann[n]]}
+                                           sb |-> <<n>>, rs |-> {[r |-> x, m |-> 0] : x \in Locals(n)}, ann |-> nann[n], d |-> 1]}
                         ELSE {}))
         /\ ctr' = [ctr EXCEPT ![n] = @ + Cardinality(G)]
   /\ last' = [act |-> "Replay", n |-> n, p |-> p, dev |-> "DevReplayUsesOwnSequence"]
@@ -427,8 +440,12 @@ Fresh(a, o) == /\ \E e \in tbl[a] : e.o = o /\ e.r = "p" /\ e.ann = nann[o] /\ ~
 Refreshed == Quiescent /\ Reachable => \A o \in Agent : clean[o] => \A a \in ReachFrom({o}) \ {o} : Fresh(a, o)
 
 \* C15 -- nothing is stored more than MaxHops from its origin, nothing is forwarded from there
-HopLimit == /\ \A a \in Agent : \A e \in tbl[a] : Len(e.path) <= cfg.hops[a]
-            /\ \A m \in Msgs : Len(m.path) <= cfg.hops[m.src] + 1
+HopLimit == /\ \A a \in Agent : \A e \in tbl[a] : Len(e.path) <= cfg.hops[a] /\ e.d <= cfg.hops[a]
+            /\ \A m \in Msgs : Len(m.path) <= cfg.hops[m.src] + 1 /\ m.d <= cfg.hops[m.src] + 1
+\* C15/C11 -- the recorded path is as long as the way the announcement really travelled (nothing is lost when a
+\* path is written to the wire), and every list in flight fits its count field
+PathIsDistance == /\ \A a \in Agent : \A e \in tbl[a] : Len(e.path) = e.d
+                  /\ \A m \in Msgs : Len(m.path) = m.d /\ Len(m.path) < ListMod /\ Len(m.sb) < ListMod
 
 \* C06 -- every frame fits its count field and every frame delivered so far was decoded as the set that was sent
 CountFits == \A m \in Msgs : Cardinality(m.rs) < CntMod
